@@ -220,6 +220,20 @@ fn driver(ctx: &mut Ctx, t: &Value) {
                     o
                 }
             };
+            // numbers without derivative information built inside the callable: absent parts read as None
+            if let Some(cg) = t.get("const_getters") {
+                let c = DualSVec64::<2>::from_re(2.5);
+                let c2 = c.clone() * 3.0 + 1.0;
+                let row = |x: &DualSVec64<2>| {
+                    let p = <DualSVec64<2> as Subject<f64>>::parts(x, Dims::n(2));
+                    json!([format!("{:016x}", p.vals[0].to_bits()), if p.present[0] { json!(p.vals[1..].iter().map(|v| format!("{:016x}", v.to_bits())).collect::<Vec<_>>()) } else { Value::Null }, "n/a"])
+                };
+                let want = json!([row(&c), row(&c2)]);
+                ctx.st.evaluations += 1;
+                if !getters_agree(cg, &want) {
+                    ctx.st.violation(Violation { sig: format!("driver gradient constant getters n={n}"), case: t.clone(), what: format!("getters of from_re(2.5) and from_re(2.5) * 3 + 1 inside the callable: {cg}, the Rust numbers have {want}") });
+                }
+            }
             // the seeds the Python callable saw: unit vectors
             let mut seeds = Vec::new();
             flat_json(&t["seeds"], &mut seeds);
@@ -228,6 +242,19 @@ fn driver(ctx: &mut Ctx, t: &Value) {
         }
         "hessian" => {
             let prod3 = t["variant"].as_str() == Some("prod3");
+            if let Some(cg) = t.get("const_getters") {
+                let c = Dual2SVec64::<2>::from_re(2.5);
+                let c2 = c.clone() * 3.0 + 1.0;
+                let row = |x: &Dual2SVec64<2>| {
+                    let p = <Dual2SVec64<2> as Subject<f64>>::parts(x, Dims::n(2));
+                    json!([format!("{:016x}", p.vals[0].to_bits()), if p.present[0] { json!("present") } else { Value::Null }, if p.present[1] { json!("present") } else { Value::Null }])
+                };
+                let want = json!([row(&c), row(&c2)]);
+                ctx.st.evaluations += 1;
+                if !getters_agree(cg, &want) {
+                    ctx.st.violation(Violation { sig: format!("driver hessian constant getters n={n}"), case: t.clone(), what: format!("getters of from_re(2.5) and from_re(2.5) * 3 + 1 inside the callable: {cg}, the Rust numbers have {want}") });
+                }
+            }
             macro_rules! h {
                 ($k:literal) => {{
                     let (f, g, h) = hessian(|v: SVector<Dual2SVec64<$k>, $k>| if prod3 { integrand_prod3(v.as_slice()) } else { integrand(v.as_slice(), &ops) }, SVector::<f64, $k>::from_column_slice(&x));
@@ -411,6 +438,14 @@ fn driver(ctx: &mut Ctx, t: &Value) {
         if e != c {
             ctx.st.violation(Violation { sig: format!("driver {name} dispatch {shape}"), case: t.clone(), what: format!("the callable received {c} objects, expected {e} for this length") });
         }
+    }
+}
+
+/// getter rows agree; "n/a" on the Python side = the class has no such getter (not compared)
+fn getters_agree(py: &Value, rust: &Value) -> bool {
+    match (py.as_array(), rust.as_array()) {
+        (Some(a), Some(b)) => a.len() == b.len() && a.iter().zip(b).all(|(x, y)| x.as_str() == Some("n/a") || getters_agree(x, y) || x == y),
+        _ => py == rust,
     }
 }
 
